@@ -138,14 +138,6 @@ Qed.
 (* ------------------------------------------------------------------ closed witnesses *)
 Definition comma_dq : dialect := {| delim := 44; quote := 34 |}%N.
 
-(* the inference sample (run_sample): with eof (the sample reached the end of the file) it is what the reader decodes,
-   without it is the decoder alone *)
-Lemma run_sample_eof_reader : forall d bs, run_sample d true bs = run_reader d bs.
-Proof. intros d [|b bs]; reflexivity. Qed.
-
-Lemma run_sample_noeof_dfa : forall d bs, run_sample d false bs = run_dfa d bs.
-Proof. reflexivity. Qed.
-
 (* "a,b\n1,2": WITHOUT the end-of-input signal (ReadCsv::bind's inference sample before the repair; the reader before
    ddfbbbc21) the last record is lost; the reader and the sample of a whole file (with the signal) return the
    RFC-4180 records *)
